@@ -1,0 +1,58 @@
+//go:build verif
+// +build verif
+
+package core
+
+import (
+	"strconv"
+
+	"com.tuntun.rangers/node/src/common"
+	"com.tuntun.rangers/node/src/middleware/db"
+	"com.tuntun.rangers/node/src/middleware/log"
+	"com.tuntun.rangers/node/src/middleware/types"
+)
+
+// Verification hook H4b (build tag verif, add-only): crash points during the very first
+// start-up. initGroupChain builds its chain in a local and saves the genesis groups before
+// anything outside can wrap the store, so db.VerifWriteHook never sees those writes.
+// VerifGroupChainFirstBoot runs exactly the genesis branch of initGroupChain
+//
+//	for _, genesis := range consensusHelper.GenerateGenesisInfo() { chain.save(&genesis.Group) }
+//
+// with the REAL save on a chain whose store is wrapped with db.VerifWrap. The chain is not
+// installed (groupChainImpl is untouched): the caller cuts the writes with db.VerifWriteHook
+// (save then panics with db.VerifAbort) and afterwards runs the real start-up
+// (VerifInitGroupChain) on what reached the disk. Returns false without writing when the
+// store already has a last-group pointer (not a first boot).
+func VerifGroupChainFirstBoot(helper types.ConsensusHelper) bool {
+	idx := strconv.Itoa(common.InstanceIndex)
+	if logger == nil {
+		logger = log.GetLoggerByIndex(log.CoreLogConfig, idx)
+	}
+	consensusHelper = helper
+	chain := &groupChain{}
+	groups, err := db.NewDatabase(groupChainPrefix)
+	if err != nil {
+		panic("Init group chain error:" + err.Error())
+	}
+	chain.groups = db.VerifWrap(groups)
+	if lastGroupId, _ := chain.groups.Get([]byte(lastGroupKey)); lastGroupId != nil {
+		return false
+	}
+	genesisGroups := consensusHelper.GenerateGenesisInfo()
+	for _, genesis := range genesisGroups {
+		if e := chain.save(&genesis.Group); e != nil {
+			panic("Add genesis group on chain failed:" + e.Error())
+		}
+	}
+	return true
+}
+
+// VerifGroupChainFirstBelow is groupChain.getFirstGroupBelowHeight: the newest group on chain
+// whose CreateHeight is <= createBlockHeight (the fork switch uses it to pick the common ancestor).
+func VerifGroupChainFirstBelow(createBlockHeight uint64) *types.Group {
+	return groupChainImpl.getFirstGroupBelowHeight(createBlockHeight)
+}
+
+// VerifGroupChainTopHeight is groupChain.height() (count-1, or 0 for count <= 1).
+func VerifGroupChainTopHeight() uint64 { return groupChainImpl.height() }
